@@ -9,7 +9,7 @@ Local Open Scope Z_scope.
 
 (** * non-negative cached balances, now and in every state the journal can restore *)
 Definition jnn (e : jentry) : Prop :=
-  match e with JBal _ p => 0 <= p | JSuicide _ _ pb => 0 <= pb | _ => True end.
+  match e with JBal _ p => 0 <= p | JSuicide _ _ pb => 0 <= pb | JReset _ pv => 0 <= obal pv | _ => True end.
 Definition nn (D : sdb) : Prop :=
   (forall a o, objs D !! a = Some o -> 0 <= obal o) /\ Forall jnn (journal D).
 
@@ -68,7 +68,7 @@ Proof.
   assert (Hob : objs (undo_dirt (undo_core (mksdb (objs D) r (dirties D) (logs D)) e) e) =
                 objs (undo_core (mksdb (objs D) r (dirties D) (logs D)) e)).
   { unfold undo_dirt. by destruct (dirtied e). }
-  rewrite Hob. unfold undo_core. destruct e as [a0 p|a0 k p|a0| |a0 p pb]; cbn.
+  rewrite Hob. unfold undo_core. destruct e as [a0 p|a0 k p|a0| |a0 p pb|a0 pv]; cbn.
   - destruct (objs D !! a0) as [o0|] eqn:E; cbn; [|exact Ho]. intros b ob.
     destruct (decide (a0 = b)) as [->|]; [rewrite lookup_insert; intros [= <-]; exact He|rewrite lookup_insert_ne by done; apply Ho].
   - destruct (objs D !! a0) as [o0|] eqn:E; cbn; [|exact Ho]. intros b ob.
@@ -77,6 +77,7 @@ Proof.
   - exact Ho.
   - destruct (objs D !! a0) as [o0|] eqn:E; cbn; [|exact Ho]. intros b ob.
     destruct (decide (a0 = b)) as [->|]; [rewrite lookup_insert; intros [= <-]; exact He|rewrite lookup_insert_ne by done; apply Ho].
+  - intros b ob. destruct (decide (a0 = b)) as [->|]; [rewrite lookup_insert; intros [= <-]; exact He|rewrite lookup_insert_ne by done; apply Ho].
 Qed.
 Lemma nn_pop_n n : forall D, nn D -> nn (pop_n D n).
 Proof.
@@ -144,11 +145,13 @@ Lemma do_call_pure3 U order W D caller target value run :
   (forall D1, wf W D1 -> cohp W D1 -> nn D1 -> pstep3 U W D1 (run (W, D1))) ->
   pstep3 U W D (do_call order (W, D) caller target value run).
 Proof.
-  intros Hwf Hc Hn Hw Hbn Hnd Hcu Htu Hv Hrun. unfold do_call. rewrite !(load_id _ _ _ Hwf).
+  intros Hwf Hc Hn Hw Hbn Hnd Hcu Htu Hv Hrun. unfold do_call, do_call_gen. rewrite !(load_id _ _ _ Hwf).
   destruct (negb (value =? 0) && (cbal D caller <? value)) eqn:Hchk.
   { split; [done|]. split; [by apply ext_refl|]. split; [done|]. split; [done|]. cbn. lia. }
   assert (HD0 : (if value =? 0 then D else D) = D) by (by destruct (value =? 0)). rewrite HD0.
   rewrite !(load_id _ _ _ Hwf).
+  destruct (negb false && match objs D !! target with None => true | Some _ => false end && (value =? 0) && negb (is_precompile target)).
+  { split; [done|]. split; [by apply ext_refl|]. split; [done|]. split; [done|]. cbn. lia. }
   set (D2 := match objs D !! target with
              | Some _ => D
              | None => japp (set_obj D target (mkobj 0 ∅ ∅ ∅ false)) (JCreate target)
@@ -213,7 +216,7 @@ Theorem pure_instr3 U : NoDup U -> forall i, pure i = true -> okv U i = true ->
     pstep3 U W D (exec_instr order o self i (W, D)).
 Proof.
   intros Hnd.
-  induction i as [k v| | |a|b|t v c r body IH|p v c r] using instr_ind'; intros Hp Hok order o self W D Hw Hbn Hself Hwf Hc Hn;
+  induction i as [k v| | |a|b|t v c r body IH|ad v c r sc body|p v c r] using instr_ind'; intros Hp Hok order o self W D Hw Hbn Hself Hwf Hc Hn;
     cbn [exec_instr].
   - split; [done|]. split; [by apply set_state_ext|]. destruct (set_state_facts U W D self k v Hwf Hc Hw) as [H1 H2].
     split; [done|]. split; [by apply nn_set_state|]. cbn. lia.
@@ -246,6 +249,7 @@ Proof.
     apply (pstep3_seq U W D1 (exec_instr order o t x (W, D1))).
     + by apply IHx.
     + intros D2 Hwf2 Hc2 Hn2. by apply IHb.
+  - discriminate.
   - discriminate.
 Qed.
 
